@@ -7,6 +7,7 @@ CONSTANTS
   OnTopic <- OnTopicDef
   Compatible <- CompatibleDef
   DefaultLease = 60000
+  Late = FALSE
   Leases = {1100, 2500}
   Dts = {400, 1000}
   MaxSteps = 9
@@ -19,5 +20,7 @@ INVARIANT Inv_ParticipantsAgree
 INVARIANT Inv_AtticOnlyOfAbsent
 INVARIANT Inv_MatchedAreKnown
 INVARIANT Inv_LifeSignsAgree
+INVARIANT Inv_LocalAgree
+INVARIANT Inv_AnnouncedAreKnown
 ACTION_CONSTRAINT GenEdge
 CHECK_DEADLOCK FALSE
